@@ -680,3 +680,30 @@ Proof.
   match goal with |- match (match ?r with _ => _ end) with _ => _ end => destruct r as [a|e|e] end; auto.
   destruct (T.in_syntax_family e) eqn:E; [exact E|reflexivity].
 Qed.
+
+(* The third token loop on the text side, SVCBBase.from_text's parameter loop (C05's model of it):
+   its result does not depend on the fuel once the fuel exceeds the measure - so with
+   rem_fuel = len + 2 the exhaustion branch is never the reason for its result. *)
+Lemma svcb_params_loop_fuel_indep : forall f1 f2 st ps, (mz st < f1)%nat -> (mz st < f2)%nat ->
+  RdTextM.svcb_params_loop f1 st ps = RdTextM.svcb_params_loop f2 st ps.
+Proof.
+  induction f1 as [|f1 IH]; intros f2 st ps H1 H2; [lia|]. destruct f2 as [|f2]; [lia|].
+  cbn [RdTextM.svcb_params_loop].
+  destruct (T.get0 st) as [[t s1]|e|e] eqn:G; cbn [bind]; try reflexivity.
+  apply get_mz in G as (_ & A & _ & C).
+  destruct (T.is_eol_or_eof t) eqn:Ee; [reflexivity|]. specialize (C (eof_is_eol t Ee)).
+  destruct (negb (T.is_identifier t)); [reflexivity|]. cbv zeta.
+  destruct (RdTextM.split_once 61 (T.tvalue t)) as [[key rest]|].
+  - destruct (T.is_nil key); [reflexivity|].
+    destruct (T.is_nil rest).
+    + destruct (T.get s1 true false) as [[q s2]|e|e] eqn:G2; cbn [bind fst snd]; try reflexivity.
+      apply get_mz in G2 as (_ & A2 & _).
+      destruct (negb (T.is_quoted q)); [reflexivity|].
+      destruct (RdTextM.svcb_define ps key (Some (T.tvalue q))); cbn [bind]; try reflexivity. apply IH; lia.
+    + destruct (RdTextM.svcb_define ps key (Some rest)); cbn [bind]; try reflexivity. apply IH; lia.
+  - destruct (RdTextM.svcb_define ps (T.tvalue t) None); cbn [bind]; try reflexivity. apply IH; lia.
+Qed.
+
+Theorem svcb_params_loop_fuel_sufficient st ps extra :
+  RdTextM.svcb_params_loop (T.rem_fuel st + extra) st ps = RdTextM.svcb_params_loop (T.rem_fuel st) st ps.
+Proof. apply svcb_params_loop_fuel_indep; pose proof (mz_lt_rem_fuel st); lia. Qed.
